@@ -4,7 +4,9 @@ import (
 	"bytes"
 	stdgzip "compress/gzip"
 	stdzlib "compress/zlib"
+	"encoding/binary"
 	"fmt"
+	"hash/crc32"
 	"io"
 	"strings"
 	"time"
@@ -23,7 +25,7 @@ func init() {
 		ID:       "C06",
 		Category: "model_checking",
 		Rule: "(a) gzip header product: Name, Comment in {empty, \"a\", Latin-1 \"\\u00e9\", 511 chars} x Extra in {nil, empty, 1 byte, 65535 bytes} x ModTime in {zero, 1 s, 2^32-1 s} x OS in {0,3,255} (576 headers) x levels {1,-2,6} (every level -2..9 in thorough) x both directions, plus headers the standard library rejects (non-Latin-1, NUL, oversize Extra); " +
-			"(b) payload in {tiny strings up to length 6 (9 thorough) over {a,b}, the reduced pieces} x every level -2..9 x call pattern in {W C, W F W C, F C, C, 1-byte writes} x {new writer, writer reused through Reset after a first stream} x gzip / zlib / zlib with a 20-byte and a 40000-byte dictionary x both directions; " +
+			"(c) one gzip member of 2^32+5 bytes (the trailer length is modulo 2^32), fastgo Writer -> compress/gzip and fastgo Readers; (b) payload in {tiny strings up to length 6 (9 thorough) over {a,b}, the reduced pieces} x every level -2..9 x call pattern in {W C, W F W C, F C, C, 1-byte writes} x {new writer, writer reused through Reset after a first stream} x gzip / zlib / zlib with a 20-byte and a 40000-byte dictionary x both directions; " +
 			"oracle: the standard library reads fastgo's output as the same payload and header it reads from its own output; fastgo reads the standard library's output as the standard library does; the trailer is CRC-32 || length mod 2^32 (gzip, little endian) / Adler-32 (zlib, big endian) recomputed by the harness; header errors agree; non-trivial = payload not empty",
 		Assumptions: []string{"compress/gzip and compress/zlib talking to themselves define the normal form"},
 		Quick:       TierSpec{MaxDev: -1, Shards: 4, ShardDepth: 3, BudgetS: 600},
@@ -126,7 +128,88 @@ func c06Harness(cfg *Cfg) func(x *mc.Exec) {
 		return b[:n]
 	}
 	return func(x *mc.Exec) {
-		part := x.Choose(2, "part")
+		part := x.Choose(3, "part")
+		if part == 2 {
+			// one member of 2^32+5 bytes: the length in the trailer is the length modulo 2^32. Written by fastgo's
+			// Writer (level 1) from a repeating 1 MiB block without ever holding the payload, read back by compress/gzip
+			// and by fastgo's Reader into a counting, CRC-ing sink.
+			x.NonTrivial()
+			const total = 1<<32 + 5
+			block := make([]byte, 1<<20)
+			for i := range block {
+				block[i] = byte(i % 251)
+			}
+			var fb bytes.Buffer
+			crc := crc32.NewIEEE()
+			var werr error
+			if pi := Guard(func() {
+				fw, e := fgzip.NewWriterLevel(&fb, 1)
+				if e != nil {
+					werr = e
+					return
+				}
+				left := int64(total)
+				for left > 0 && werr == nil {
+					n := int64(len(block))
+					if n > left {
+						n = left
+					}
+					_, werr = fw.Write(block[:n])
+					crc.Write(block[:n])
+					left -= n
+				}
+				if werr == nil {
+					werr = fw.Close()
+				}
+			}); pi != nil {
+				x.Fail("C06 panic "+pi.Site, "4 GiB member: %s", pi)
+				return
+			}
+			if werr != nil {
+				x.Fail("C06 writer-error gzip 4GiB", "writing a member of 2^32+5 bytes: %v", werr)
+				return
+			}
+			out := fb.Bytes()
+			x.Note(uint64(len(out)))
+			if t := out[len(out)-8:]; !bytes.Equal(t[4:], []byte{5, 0, 0, 0}) || binary.LittleEndian.Uint32(t[:4]) != crc.Sum32() {
+				x.Fail("C06 trailer gzip 4GiB", "member of 2^32+5 bytes: trailer %x, want CRC %08x and length 5 (modulo 2^32)", t, crc.Sum32())
+				return
+			}
+			drain := func(r io.Reader) (int64, uint32, error) {
+				h := crc32.NewIEEE()
+				n, err := io.Copy(h, r)
+				return n, h.Sum32(), err
+			}
+			sr, e := stdgzip.NewReader(bytes.NewReader(out))
+			if e != nil {
+				x.Fail("C06 std-reads-fast gzip 4GiB", "compress/gzip cannot open the member: %v", e)
+				return
+			}
+			if n, c, err := drain(sr); err != nil || n != total || c != crc.Sum32() {
+				x.Fail("C06 std-reads-fast gzip 4GiB", "compress/gzip reads fastgo's member of 2^32+5 bytes as %d bytes, crc %08x, err %v", n, c, err)
+				return
+			}
+			var n int64
+			var c uint32
+			var rerr error
+			if pi := Guard(func() {
+				fr, e := fgzip.NewReader(bytes.NewReader(out))
+				if e != nil {
+					rerr = e
+					return
+				}
+				n, c, rerr = drain(fr)
+			}); pi != nil {
+				x.Fail("C06 panic "+pi.Site, "reading the 4 GiB member: %s", pi)
+				return
+			}
+			if rerr != nil || n != total || c != crc.Sum32() {
+				x.Fail("C06 fast-reads gzip 4GiB", "fastgo reads a valid member of 2^32+5 bytes (compress/gzip reads it to io.EOF) as %d bytes, crc %08x, err %v", n, c, rerr)
+				return
+			}
+			x.Outcome("4GiB member ok")
+			return
+		}
 		if part == 0 {
 			// gzip header product
 			var h stdgzip.Header
